@@ -482,3 +482,131 @@ pub fn program_text(rng: &mut Rng, cfg: &ProgCfg) -> String {
 pub fn parse(text: &str) -> Program {
     Program::from_str(text).unwrap_or_else(|e| panic!("generated program does not parse: {text:?}: {e}"))
 }
+
+// ---------------------------------------------------------------------------------------------------
+// "ast" streams: the program crosses the wire as the shared full AST (harness/src/ast.rs); the driver
+// computes blocks and handler answers itself (lean/QV/Shared/HandlerFromAst.lean).
+// ---------------------------------------------------------------------------------------------------
+
+/// `err | ((name hasReturn (mutable…))…)`
+pub fn sigs_sexp(program: &Program) -> Sexp {
+    match ExternSignatureMap::try_from(program.extern_pragma_map.clone()) {
+        Err(_) => atom("err"),
+        Ok(m) => list(
+            m.iter()
+                .map(|(name, sig)| {
+                    list(vec![
+                        st(name.clone()),
+                        nat(sig.return_type().is_some() as u64),
+                        list(sig.parameters().iter().map(|p| nat(p.mutable() as u64)).collect()),
+                    ])
+                })
+                .collect(),
+        ),
+    }
+}
+
+/// the REAL default handler's answer about one instruction, by name (cross-check of `answersOf`)
+pub fn real_answer(program: &Program, externs: &ExternSignatureMap, instruction: &Instruction) -> Sexp {
+    let handler = DefaultHandler;
+    let role = match handler.role(instruction) {
+        InstructionRole::ClassicalCompute => "c",
+        InstructionRole::RFControl => "r",
+        InstructionRole::ControlFlow => "f",
+        InstructionRole::ProgramComposition => "p",
+    };
+    let names = |s: HashSet<String>| {
+        let mut v: Vec<String> = s.into_iter().collect();
+        v.sort();
+        list(v.into_iter().map(st).collect())
+    };
+    let (mem_err, r, w, c) = match handler.memory_accesses(externs, instruction) {
+        Ok(a) => (false, names(a.reads), names(a.writes), names(a.captures)),
+        Err(_) => (true, list(vec![]), list(vec![]), list(vec![])),
+    };
+    let frames = |s: &HashSet<&FrameIdentifier>| {
+        let mut v: Vec<&FrameIdentifier> = s.iter().copied().collect();
+        v.sort_by_key(|f| frame_key(f));
+        list(v.into_iter().map(crate::ast::frame_identifier_to_sexp).collect())
+    };
+    let fr = match handler.matching_frames(program, instruction) {
+        None => atom("none"),
+        Some(m) => tagged("fr", vec![frames(&m.used), frames(&m.blocked)]),
+    };
+    tagged("a", vec![atom(role), nat(handler.is_scheduled(instruction) as u64), nat(mem_err as u64), r, w, c, fr])
+}
+
+/// Build the program from `instructions` by `add_instruction` calls and return it with the case input
+/// `(instruction-list-AST, sigs, real blocks/answers)`.
+pub fn ast_parts(instructions: &[Instruction]) -> (Program, Vec<Sexp>) {
+    let program = Program::from_instructions(instructions.to_vec());
+    let externs = ExternSignatureMap::try_from(program.extern_pragma_map.clone()).unwrap_or_default();
+    let blocks = ControlFlowGraph::from(&program).into_blocks();
+    let real = blocks
+        .iter()
+        .map(|b| {
+            let is = b.instructions().iter().map(|i| real_answer(&program, &externs, i)).collect();
+            let t = match b.terminator().clone().into_instruction() {
+                Some(t) => real_answer(&program, &externs, &t),
+                None => atom("none"),
+            };
+            tagged("b", vec![list(is), t])
+        })
+        .collect();
+    let parts = vec![crate::ast::instructions_to_sexp(instructions), sigs_sexp(&program), list(real)];
+    (program, parts)
+}
+
+/// The instruction list a program text parses to (definitions first, as `to_instructions` lists them).
+pub fn parsed_instructions(text: &str) -> Vec<Instruction> {
+    parse(text).to_instructions()
+}
+
+/// Richer program texts for the ast streams: definitions (DECLARE, DEFFRAME with attributes, DEFWAVEFORM,
+/// DEFCAL, PRAGMA EXTERN), CALLs, expressions with memory references, on top of `program_text`.
+pub fn ast_program_text(rng: &mut Rng, cfg: &ProgCfg) -> String {
+    let mut s = String::new();
+    if rng.chance(1, 2) {
+        s.push_str("PRAGMA EXTERN foo \"INTEGER (x : mut INTEGER, y : REAL)\"\n");
+    }
+    if rng.chance(1, 4) {
+        s.push_str("PRAGMA EXTERN bar \"(z : INTEGER)\"\n");
+    }
+    if rng.chance(1, 40) {
+        s.push_str("PRAGMA EXTERN bad \"not a signature\"\n");
+    }
+    for r in REGIONS.iter().take(cfg.nreg) {
+        if rng.chance(2, 3) {
+            s.push_str(&format!("DECLARE {r} REAL[4]\n"));
+        }
+    }
+    if rng.chance(1, 3) {
+        s.push_str("DEFCAL X 0:\n    PULSE 0 \"x\" flat(duration: 1.0, iq: 1.0)\n    SHIFT-PHASE 1 \"x\" a[0]\n");
+    }
+    if rng.chance(1, 4) {
+        s.push_str("DEFCAL MEASURE 2 addr:\n    CAPTURE 2 \"x\" flat(duration: 1.0, iq: 1.0) addr\n");
+    }
+    if rng.chance(1, 4) {
+        s.push_str("DEFWAVEFORM w:\n    1, 1, 1, 1\n");
+    }
+    let body = program_text(rng, cfg);
+    // sprinkle CALLs and expression-carrying instructions into the body
+    let mut out = String::new();
+    for line in body.lines() {
+        out.push_str(line);
+        out.push('\n');
+        if !line.starts_with("DEFFRAME") && !line.starts_with("    ") && rng.chance(1, 8) {
+            let a = REGIONS[rng.below(cfg.nreg as u64) as usize];
+            let b = REGIONS[rng.below(cfg.nreg as u64) as usize];
+            match rng.below(5) {
+                0 => out.push_str(&format!("CALL foo {a}[0] {b}[1] 1.5\n")),
+                1 => out.push_str(&format!("CALL bar {a}\n")),
+                2 => out.push_str(&format!("CALL foo {a}[0] {b}\n")),
+                3 => out.push_str(&format!("SET-SCALE 0 \"x\" cos({a}[1]) + {b}[2]\n")),
+                _ => out.push_str(&format!("PULSE 0 \"x\" flat(duration: 1.0, iq: {a}[0], detuning: -{b}[3])\n")),
+            }
+        }
+    }
+    s.push_str(&out);
+    s
+}
